@@ -168,12 +168,92 @@ pub fn explore_space(opts: &Opts, sp: &Space, total: &mut Local, stats_out: &mut
     total.merge(local);
 }
 
+/// Larger graphs than the exhaustive spaces reach, of a few fixed structures: a leaf with fan-out k,
+/// a chain of depth d that re-uses both leaves at every level, and a diamond of width w.
+fn structured_programs(var: u64) -> Vec<(String, Program)> {
+    let leaves = vec![
+        Leaf { dims: vec![2], vals: vec![1.0 + var as f64, -2.0] },
+        Leaf { dims: vec![2], vals: vec![3.0, 0.5] },
+    ];
+    let mut out = Vec::new();
+    for k in [5usize, 9, 17, 33, 65] {
+        // r = sum_i (a * b) with a used 2k times
+        let mut nodes = Vec::new();
+        let mut acc: Option<usize> = None;
+        for i in 0..k {
+            nodes.push(PNode { op: if i % 2 == 0 { OpK::Mul } else { OpK::Add }, args: vec![0, if i % 3 == 0 { 0 } else { 1 }] });
+            let t = 2 + nodes.len() - 1;
+            acc = Some(match acc {
+                None => t,
+                Some(p) => {
+                    nodes.push(PNode { op: OpK::Add, args: vec![p, t] });
+                    2 + nodes.len() - 1
+                }
+            });
+        }
+        out.push((format!("fan-out {}", 2 * k), Program { leaves: leaves.clone(), nodes, retrack: vec![], frozen: vec![], dropped: vec![] }));
+    }
+    for d in [10usize, 20, 40, 80] {
+        // c = c * b + a, d times (values stay small: b = 0.5-ish second element; first grows)
+        let mut nodes = Vec::new();
+        let mut cur = 0usize;
+        for i in 0..d {
+            nodes.push(PNode { op: if i % 4 == 3 { OpK::Neg } else { OpK::Scale(-2.0) }, args: vec![cur] });
+            let s = 2 + nodes.len() - 1;
+            nodes.push(PNode { op: OpK::Add, args: vec![s, if i % 2 == 0 { 1 } else { 0 }] });
+            cur = 2 + nodes.len() - 1;
+        }
+        out.push((format!("chain depth {}", d), Program { leaves: leaves.clone(), nodes, retrack: vec![], frozen: vec![], dropped: vec![] }));
+    }
+    for w in [4usize, 8, 16, 32] {
+        // m = a*b; w parallel branches neg/scale of m; summed
+        let mut nodes = vec![PNode { op: OpK::Mul, args: vec![0, 1] }];
+        let mut acc: Option<usize> = None;
+        for i in 0..w {
+            nodes.push(PNode { op: if i % 2 == 0 { OpK::Neg } else { OpK::Scale(3.0) }, args: vec![2] });
+            let t = 2 + nodes.len() - 1;
+            acc = Some(match acc {
+                None => t,
+                Some(p) => {
+                    nodes.push(PNode { op: OpK::Add, args: vec![p, t] });
+                    2 + nodes.len() - 1
+                }
+            });
+        }
+        out.push((format!("diamond width {}", w), Program { leaves: leaves.clone(), nodes, retrack: vec![], frozen: vec![], dropped: vec![] }));
+    }
+    out
+}
+
 pub fn explore(opts: &Opts) -> Explored {
     let var = opts.seed % 3;
     let mut total = Local::new(opts.only.clone());
     let mut stats = Vec::new();
     for sp in spaces(opts.tier, var) {
         explore_space(opts, &sp, &mut total, &mut stats);
+    }
+    // a few much larger graphs of fixed structure (thresholds on fan-out, depth or width)
+    {
+        let l = &mut total;
+        let progs = structured_programs(var);
+        for (name, p) in &progs {
+            for m in [0b11u32, 0b01, 0b10] {
+                let mask = vec![m & 1 != 0, m & 2 != 0];
+                let root = p.nv() - 1;
+                for npass in 1..=2usize {
+                    let passes: Vec<Pass> = (0..npass).map(|_| Pass { root, seed: None }).collect();
+                    let case = || format!("structured: {} mask={:02b} passes={}", name, m, npass);
+                    if !l.want(&case) {
+                        continue;
+                    }
+                    l.states += 1;
+                    let cfg = CheckCfg { sub: "structured", intermediates: false, values: true };
+                    check_program(p, &mask, &passes, &cfg, l, &case);
+                    l.sample(&case);
+                }
+            }
+        }
+        stats.push(json!({"space": "structured larger graphs", "programs": progs.len(), "kinds": "fan-out 10..130, chain depth 10..80, diamond width 4..32"}));
     }
     Explored {
         local: total,
